@@ -252,18 +252,19 @@ func checkC08(c *Ctx) {
 			continue
 		}
 		var claimStore ssa.Instruction
-		eachInstr(top, func(in ssa.Instruction) {
+		top = m.ownerOf(top)
+		m.eachUnitInstr(top, func(in ssa.Instruction) {
 			if val, isConst, ok := m.claimStore(in); ok && isConst && val {
 				claimStore = in
 			}
 		})
-		c.check(claimStore != nil && dominatesInstr(claimStore, goSite), "R1", "promotion after claim set in "+shortFn(top), goSite, "claim Store(true) dominates the go statement that runs OnPromote")
+		c.check(claimStore != nil && m.dominatesLifted(top, claimStore, goSite), "R1", "promotion after claim set in "+shortFn(top), goSite, "claim Store(true) dominates the go statement that runs OnPromote")
 		// token argument == value stored to the token field in this unit
 		var tokenStored *Sym
-		eachInstr(top, func(in ssa.Instruction) {
+		m.eachUnitInstr(top, func(in ssa.Instruction) {
 			if call, ok := in.(*ssa.Call); ok {
 				if fld, v, ok := m.atomicStore(call); ok && fld == m.Token {
-					tokenStored = m.Sym.Of(v)
+					tokenStored = m.Sym.Of(m.traceValue(v))
 				}
 			}
 		})
